@@ -185,7 +185,7 @@ impl Prop for C07 {
         }
     }
     fn worker(&self, ctx: &mut WorkerCtx) {
-        let total = if ctx.quick { 12_000 } else { 250_000 };
+        let total = if ctx.quick { 40_000 } else { 1_000_000 };
         let n = ctx.share(total);
         ctx.drive(1, n, 600, &gen_case, &check, &reduce);
     }
